@@ -79,6 +79,21 @@ fn to_location(s: SpanLoc) -> lsp_types::Location {
     }
 }
 
+/// Does a message refer to a text document whose uri cannot be mapped to a file path?
+fn refers_to_non_file_uri(params: &serde_json::Value) -> bool {
+    params
+        .get("textDocument")
+        .and_then(|doc| doc.get("uri"))
+        .and_then(|uri| uri.as_str())
+        .map(|uri| {
+            Url::parse(uri)
+                .ok()
+                .and_then(|uri| uri.to_file_path().ok())
+                .is_none()
+        })
+        .unwrap_or(false)
+}
+
 pub struct LspContext {
     connection: Option<(Arc<Connection>, Option<IoThreads>)>,
     tree: Option<Arc<ParseTree>>,
@@ -440,6 +455,10 @@ impl LspServer {
 
         match msg {
             Message::Request(req) => match self.request_handlers.get(req.method.as_str()) {
+                Some(_) if refers_to_non_file_uri(&req.params) => {
+                    // Such a document (e.g. an 'untitled:' buffer) cannot be part of the project: nothing to answer
+                    ctx.send_response(req.id, serde_json::Value::Null)?;
+                }
                 Some(handler) => {
                     handler.handle(&mut ctx, req)?;
                 }
@@ -457,6 +476,9 @@ impl LspServer {
             Message::Response(_resp) => {}
             Message::Notification(not) => {
                 match self.notification_handlers.get(not.method.as_str()) {
+                    Some(_) if refers_to_non_file_uri(&not.params) => {
+                        log::trace!("ignoring notification for a non-file uri: {:?}", not);
+                    }
                     Some(handler) => {
                         handler.handle(&mut ctx, not)?;
                     }
